@@ -6,6 +6,7 @@ use std::process::{Child, ChildStdin, ChildStdout, Command, Stdio};
 
 pub mod json;
 pub mod wl;
+pub mod txops;
 
 /// xorshift64* — every random choice of a run derives from one state.
 #[derive(Clone)]
